@@ -41,8 +41,8 @@ of an Invoke into a stand-alone application."
 
 from psyclone.configuration import Config
 from psyclone.psyGen import BuiltIn, Kern, HaloExchange, GlobalSum
-from psyclone.psyir.nodes import (CodeBlock, ExtractNode, Loop, Schedule,
-                                  Directive, OMPParallelDirective,
+from psyclone.psyir.nodes import (CodeBlock, ExtractNode, Loop, Return,
+                                  Schedule, Directive, OMPParallelDirective,
                                   ACCParallelDirective)
 from psyclone.psyir.transformations.psy_data_trans import PSyDataTrans
 from psyclone.psyir.transformations.transformation_error \
@@ -72,7 +72,7 @@ class ExtractTrans(PSyDataTrans):
 
     '''
     # The types of node that this transformation cannot enclose
-    excluded_node_types = (CodeBlock, ExtractNode,
+    excluded_node_types = (CodeBlock, ExtractNode, Return,
                            HaloExchange, GlobalSum)
 
     def __init__(self, node_class=ExtractNode):
